@@ -80,7 +80,7 @@ static inline uint32_t spec_crc32c_byte(uint32_t crc, uint8_t b) {
 
 /* dispatcher: which ISA a kernel family is compiled for (CMakeLists.txt COMPILE_FLAGS):
  *   sse_ops.c    -msse4.2                          -> needs has_sse42
- *   avx2_ops.c   -mavx2 -mbmi2                     -> needs has_avx2 (+ BMI2: no detection field exists)
+ *   avx2_ops.c   -mavx2                            -> needs has_avx2
  *   avx512_ops.c -mavx512f -mavx512bw -mavx512vl   -> needs has_avx512f && has_avx512bw && has_avx512vl */
 #define SPEC_CPU_OK_SSE(c) ((c)->has_sse42)
 #define SPEC_CPU_OK_AVX2(c) ((c)->has_avx2)
